@@ -10,9 +10,9 @@ for d in sorted(glob.glob('/verif/seeded/*')):
         if not isinstance(r, dict):
             det.append('%s: %s' % (chk, r)); continue
         if r.get('detected'):
-            det.append('%s %s: `%s`' % (chk, r['tier'], (r.get('violating_jobs') or ['?'])[0]))
+            det.append('%s: `%s`' % (chk.replace('@', ' '), (r.get('violating_jobs') or ['?'])[0]))
         else:
-            det.append('%s %s: **not detected** (exit %s)' % (chk, r.get('tier'), r.get('exit')))
+            det.append('%s: **not detected** (exit %s)' % (chk.replace('@', ' '), r.get('exit')))
     rows.append('| %s | %s | %s | %s |' % (m['id'], m['breaks_property'], need, '; '.join(det) or 'not run'))
 table = '\n'.join(rows)
 p = '/verif/DESIGN.md'; s = open(p).read()
